@@ -53,9 +53,14 @@ func (p *printer) emitGlue(text string) {
 	p.toks[len(p.toks)-1].Glue = true
 }
 
-func (p *printer) markOp() {
+// markOp notes that the token just emitted awaits an operand: "op" after a binary operator (infix operators,
+// '=', ':=', ':', '=>'), "kw" after a prefix operator, a dot or a keyword that needs more (if, for, else).
+func (p *printer) markOp() { p.mark("op") }
+func (p *printer) markKw() { p.mark("kw") }
+
+func (p *printer) mark(what string) {
 	t := &p.toks[len(p.toks)-1]
-	t.Open = append(t.Open, "op")
+	t.Open = append(t.Open, what)
 }
 
 func (p *printer) open(tok, what string, glue bool) {
@@ -223,7 +228,7 @@ func (p *printer) bare(n *Node) {
 		p.emit(quoteStr(n.S, n.Raw))
 	case KPrefix:
 		p.emit(n.S)
-		p.markOp()
+		p.markKw()
 		p.expr(n.Kids[0], precPrefix)
 	case KPostfix:
 		p.emit(n.Kids[0].S)
@@ -263,7 +268,7 @@ func (p *printer) bare(n *Node) {
 			p.target(n.Kids[0])
 		}
 		p.emit(".")
-		p.markOp()
+		p.markKw()
 		p.emit(n.S)
 	case KCall:
 		p.target(n.Kids[0])
@@ -328,22 +333,22 @@ func (p *printer) bare(n *Node) {
 		}
 	case KIf:
 		p.emit("if")
-		p.markOp()
+		p.markKw()
 		p.expr(n.Kids[0], 2)
 		p.block(n.Body)
 		switch {
 		case n.ElseIf != nil:
 			p.emit("else")
-			p.markOp()
+			p.markKw()
 			p.bare(n.ElseIf)
 		case n.HasElse:
 			p.emit("else")
-			p.markOp()
+			p.markKw()
 			p.block(n.Else)
 		}
 	case KFor:
 		p.emit("for")
-		p.markOp()
+		p.markKw()
 		p.expr(n.Kids[0], 0)
 		p.block(n.Body)
 	case KCtl:
